@@ -193,8 +193,8 @@ package compile
 //@ func (*Compiler).BuildBaseType
 //@   requires c != nil && typ != nil
 //@   modifies *
-//@   callsite @BuildType inmap(c.typedefChain, t18)
-//@   callsite @BuildType !old(inmap(c.typedefChain, t18))
+//@   callsite @BuildType c.typedefChain[t18]
+//@   callsite @BuildType !old(c.typedefChain[t18])
 //@ func (*Compiler).makeBuiltinType
 //@   assumed
 //@   modifies *
